@@ -76,8 +76,7 @@ def run(ctx, specdir, module, cfg=None, workers="auto", timeout=600, extra_files
             open(p, "w").write(content)
     meta = os.path.join(wd, "meta")
     java = ["java", "-XX:+UseParallelGC", "-Xss512m"]
-    if heap:
-        java.append("-Xmx%s" % heap)
+    java.append("-Xmx%s" % (heap or "4g"))
     if dfs_queue:
         java.append("-Dtlc2.tool.queue.IStateQueue=StateDeque")
     for k, v in (jvm_props or {}).items():
